@@ -401,6 +401,35 @@ func lexSpaces(c *explore.Ctx, conformance, positions bool, delta int) {
 	blockBad := []string{"a", " ", "\n", "\r", "\a", "é", `"`, "\u2028"}
 	seq("block-bodies-invalid", blockBad, c.Pick(6, 8)+delta, func(b string) string { return `"""` + b + `""" a` }, `block-string bodies with a character that is no SourceCharacter (U+0007) and one that looks like a line break but is none (U+2028) after line terminators and multi-byte characters, wrapped as """…""" a, over `+strings.Join(quoteAll(blockBad), " "))
 
+	// block strings as sequences of lines (the dedent algorithm works line by line): every
+	// sequence of ≤ 4/5 lines over blank lines shorter than, equal to and longer than the indent
+	// of the text lines, text lines at several indents, tabs
+	{
+		lineAlpha := []string{"", " ", "  ", "    ", "a", " a", "  a", "    a", "\ta", "  \t"}
+		nl := c.Pick(4, 5)
+		sub := c.Sub("block-lines", fmt.Sprintf("every block string of ≤ %d lines over %d line shapes (blank lines of 0–4 spaces, text at indents 0, 1, 2, 4, tab-indented text, blanks with a tab), joined by LF and by CRLF, followed by a name", nl, len(lineAlpha)), oracle, "the grammar yields at least one token")
+		if sub != nil {
+			t0 := time.Now()
+			st, tr, complete := explore.Seqs(len(lineAlpha), nl, c.Shard, c.NShards, c.Expired, func(sym []int) bool {
+				if len(sym) == 0 {
+					return true
+				}
+				ls := make([]string, len(sym))
+				for i, x := range sym {
+					ls[i] = lineAlpha[x]
+				}
+				lexCase(c, sub, `"""`+strings.Join(ls, "\n")+`""" a`, conformance, positions)
+				lexCase(c, sub, `"""`+strings.Join(ls, "\r\n")+`""" a`, conformance, positions)
+				return true
+			})
+			sub.States, sub.Transitions = st, tr
+			if !complete {
+				sub.Cap("deadline")
+			}
+			sub.WallS = time.Since(t0).Seconds()
+		}
+	}
+
 	// ignored characters between every pair of tokens
 	s := c.Sub("ignored-gaps", "every pair of 24 token representatives × every string of ≤ 2 ignored items (space, comma, LF, CR, CRLF, tab, BOM, comments) in the gap and before/after", oracle, "always (two tokens)")
 	if s != nil {
